@@ -46,6 +46,10 @@ def run(ctx):
     syms = {"K:sel": " SELECT ", "K:one": " 1 ", "K:tagrp": " , tag FROM read_parquet ( ", "K:close": " ) ",
             "K:tagfrom": " , tag FROM ", "K:tagdbt": " , tag FROM foreign.cpu ", "K:end": " ",
             "K:tagcj": " , b.tag FROM allowed.cpu a , ", "K:b": " b ",
+            "K:with": " WITH", "K:cte": "cpu AS ( SELECT 1 AS one ) SELECT tag FROM cpu ",
+            "K:tagwhere": " , tag FROM allowed.cpu WHERE tag <> ", "K:inj": " , tag FROM ", "K:cmt": " -- ",
+            "K:trim": " trim( ", "K:as": " AS ", "K:btag": " b.tag FROM allowed.cpu a", "K:join": "JOIN",
+            "K:fcpu": "foreign.cpu b ON true ", "K:subq": " ( SELECT max(tag) FROM", "K:subend": "foreign.cpu ) AS t FROM allowed.cpu ",
             "F:foreign": root + "/foreign/cpu/2024/01/01/00/f.parquet"}
     ip, rp = ctx.path("q_in.json"), ctx.path("q_out.json")
     json.dump({"syms": syms, "traces": gen.traces, "root": root, "seed": ctx.seed}, open(ip, "w"))
@@ -63,7 +67,7 @@ def run(ctx):
     ctx.note("judgement_counts", c)
     ctx.note("per_signature", r["per_signature"])
     ctx.note("exhaustive", True)
-    ctx.note("endpoints", ["POST /api/v1/query (with and without x-arc-database)"])
+    ctx.note("endpoints", ["POST /api/v1/query (without x-arc-database, with it set to the allowed and to the foreign database)"])
     ctx.note("rule", "every hole filling up to the bounds of SqlFront.tla JobsC14%s that DuckLex accepts with the payload live; "
              "distinct_nontrivial = distinct (signature, statement) pairs" % ("Quick" if ctx.quick() else "Thorough"))
     for s in r.get("samples") or []:
